@@ -1,6 +1,7 @@
 package main
 
 import (
+	"math"
 	"bytes"
 	"encoding/json"
 	"fmt"
@@ -168,6 +169,21 @@ func c07Envelope(o *Out, root *ggql.Root, doc, op string, vars map[string]interf
 	})
 }
 
+// c07NumRoot answers every field with one value (a float, or a string to be parsed as one)
+type c07NumRoot struct{ v interface{} }
+
+func (r *c07NumRoot) Resolve(f *ggql.Field, args map[string]interface{}) (interface{}, error) {
+	switch f.Name {
+	case "query":
+		return r, nil
+	case "l":
+		return []interface{}{r.v, r.v}, nil
+	case "i":
+		return 1, nil
+	}
+	return r.v, nil
+}
+
 // c07StrRoot answers every field with one string: the response strings of the string table below.
 type c07StrRoot struct{ s string }
 
@@ -205,6 +221,18 @@ func init() {
 		for _, str := range c07Strings() {
 			sr.s = str
 			c07Envelope(o, sroot, "{ s l fail }", "", nil, "string-table")
+		}
+		// number table: non-finite and overflowing floats returned by a resolver must not reach the JSON text
+		// (NaN and Inf have no JSON spelling)
+		nr := &c07NumRoot{}
+		nroot := ggql.NewRoot(nr)
+		if err := nroot.ParseString("type Query { f: Float  g: Float64  l: [Float64]  i: Int }"); err != nil {
+			panic(err)
+		}
+		for _, v := range []interface{}{math.NaN(), math.Inf(1), math.Inf(-1), 1e300, -1e300, float32(math.Inf(1)), float32(math.NaN()),
+			math.MaxFloat64, math.SmallestNonzeroFloat64, 1.5, float32(2.5), "Inf", "NaN", "-Inf", "1e999", "1e39"} {
+			nr.v = v
+			c07Envelope(o, nroot, "{ f g l i }", "", nil, "number-table")
 		}
 		// unknown top-level words in every position relative to line ends and the end of input: the location of
 		// "'x' is not a valid executable operation type" (D64)
